@@ -407,27 +407,62 @@ def deadline_guard(name, is_x, is_y, reject_when):
 
 def ordering_outcomes(ctx, is_x, is_y):
     """P9, exact form: for each ordering o of (x ? y) build the world in which every comparison of
-    x with y in the body takes the truth value it has under o, prune, and report whether a success
-    exit is still reachable.  returns ({'<': bool, '=': bool, '>': bool}, number of comparisons)."""
+    x with y — in the body or in a local helper it calls, as an operator, a PartialOrd/PartialEq
+    method or a `match x.cmp(&y)` — takes the value it has under o, prune, and report whether a
+    success exit is still reachable.  returns ({'<': bool, '=': bool, '>': bool}, number of comparisons)."""
+    from engine.analysis import inline_walk, success_exits
     out = {}
+
+    def cmp_call(s_):
+        # Ord::cmp(x, y) -> +1 if (x, y), -1 if (y, x)
+        if s_[0] == "call" and s_[1] in ("std::cmp::Ord::cmp",) and len(s_[2]) == 2:
+            if is_x(s_[2][0]) and is_y(s_[2][1]):
+                return 1
+            if is_x(s_[2][1]) and is_y(s_[2][0]):
+                return -1
+        return None
+
     n = 0
-    atoms = []
-    for bi, atom in ctx.atoms():
-        if atom[0] != "bool":
-            continue
-        rel = cmp_rel(atom[1], is_x, is_y)
-        if rel is not None:
-            atoms.append((bi, atom, rel))
+    for c, path in inline_walk(ctx.prog, ctx, 2):
+        for bi, atom in c.atoms():
+            if atom[0] == "bool" and cmp_rel(atom[1], is_x, is_y) is not None:
+                n += 1
+            if atom[0] == "variant" and cmp_call(atom[1]) is not None:
+                n += 1
+    NAMES = {"<": "Less", "=": "Equal", ">": "Greater"}
     for o in ("<", "=", ">"):
-        rem = set()
-        for bi, atom, rel in atoms:
-            val = o in rel
-            for tg in atom[2][not val]:
-                if tg not in atom[2][val]:
-                    rem.add((bi, tg))
-        w = ctx.with_removed(rem).settle()
-        out[o] = any(e["kind"] != "err" for e in exits(w))
-    return out, len(atoms)
+        def val(t, o=o):
+            rel = cmp_rel(t, is_x, is_y)
+            return None if rel is None else (o in rel)
+
+        def ordv(s_, o=o):
+            d = cmp_call(s_)
+            if d is None:
+                return None
+            return NAMES[o if d > 0 else _FLIP[o]]
+
+        w = ctx.assume((None, val), (None, ("variantfn", ordv))).settle()
+        out[o] = bool(success_exits(w))
+    return out, n
+
+
+def ordering_world(ctx, is_x, is_y, o):
+    """the world of ordering_outcomes for one ordering (for rules that inspect what is reachable in it)"""
+    NAMES = {"<": "Less", "=": "Equal", ">": "Greater"}
+
+    def val(t):
+        rel = cmp_rel(t, is_x, is_y)
+        return None if rel is None else (o in rel)
+
+    def ordv(s_):
+        if s_[0] == "call" and s_[1] in ("std::cmp::Ord::cmp",) and len(s_[2]) == 2:
+            if is_x(s_[2][0]) and is_y(s_[2][1]):
+                return NAMES[o]
+            if is_x(s_[2][1]) and is_y(s_[2][0]):
+                return NAMES[_FLIP[o]]
+        return None
+
+    return ctx.assume((None, val), (None, ("variantfn", ordv))).settle()
 
 
 # ------------------------------------------------------------------ membership tests (idioms)
